@@ -357,6 +357,10 @@ func reportsErr(i ssa.Instruction, errV ssa.Value, known map[*ssa.Function]print
 		return false
 	}
 	idx, _ := printfIdxOf(p, known, c)
+	switch calleeName(c) {
+	case "fmt.Sprintf", "fmt.Sprint", "fmt.Sprintln", "fmt.Errorf", "fmt.Appendf", "fmt.Append", "fmt.Appendln", "errors.New":
+		return false /* builds a value; puts nothing in front of the user */
+	}
 	isSlog := strings.HasPrefix(calleeName(c), "(*log/slog.Logger).")
 	if idx < 0 && !isSlog && !strings.HasPrefix(calleeName(c), "log.Print") && !strings.HasPrefix(calleeName(c), "log.Fatal") {
 		return false
